@@ -229,6 +229,10 @@ func (f *compressFilter) decompress(src []byte) ([]byte, error) {
 	if !ok {
 		return nil, errInvalidCpsAlgorithm
 	}
+	// the header ends with CRLF; without it the value only resembles a frame.
+	if !bytes.Equal(CRLF, src[len(cpsMagicNumber)+1:cpsHdrLen]) {
+		return nil, errMissingCpsHdr
+	}
 
 	// decode with specified algorithm
 	br := newReader()
